@@ -1,7 +1,8 @@
 """C12 - `format` is off without a checker and follows the checker exactly (claimed)."""
 import ast
+import json
 
-from ..prog import norm, walk_body, AnalysisError, Func
+from ..prog import norm, walk_body, AnalysisError, Func, DRAFTS
 from ..cfg import cfg_of, reaching_defs, node_exprs, walk_expr
 from ..calls import calls_of
 from ..common import calls_at, find_method, names_in
@@ -708,6 +709,8 @@ def run(ctx):
     # (a fresh validator built for a subschema would have to be handed the checker again)
     from .c04 import rule_single_source
     rule_single_source(ctx, "R12.10")
+    rule_check_total(ctx)
+    rule_meta_format(ctx)
 
 
 def rule_checker_as_given(ctx, rid="R12.9"):
@@ -723,4 +726,47 @@ def rule_checker_as_given(ctx, rid="R12.9"):
         r.ok(site(init), "schema, resolver and format checker are recorded as given, also when the object given is falsy; without a checker: None")
     else:
         r.fail("%s|own-resolver" % init.qual, site(init), sem.get("own-resolver") or sem.get("raises"))
+    return r
+
+
+def rule_check_total(ctx, rid="R12.11"):
+    """check() answers for every instance: with the registered functions raising only what they list, nothing but FormatError leaves
+    check() and nothing at all leaves conforms() -- in particular nothing is computed from the instance (its repr, say) unless
+    there is a failure to word.  Kind interpreter on the two methods, instance = any JSON value."""
+    from ..interp import Interp, obj
+    from ..kinds import ANY, AV
+    from .c03 import run_entry
+    prog = ctx.prog
+    r = ctx.rule(rid, "FormatChecker.check lets nothing but FormatError escape and conforms nothing at all, for any instance (registered functions raising only what they list)", floor=2)
+    I = Interp(prog, "draft7")
+    for name, allowed in (("check", {"FormatError"}), ("conforms", set())):
+        m = find_method(prog, "_format.FormatChecker", name)
+        eff = run_entry(I, m, [obj("FormatChecker"), ANY, AV(["str"])])
+        bad = {}
+        for x in eff:
+            if x.exc in allowed or x.exc == "CheckerRaises":
+                continue
+            bad.setdefault(x.key(), x)
+        if not bad:
+            r.ok(site(m), "escape set within %s" % (sorted(allowed) or "{}"))
+        for key, x in sorted(bad.items()):
+            r.fail(key, site(x.func, x.node), "%s can escape FormatChecker.%s: %s%s" % (x.exc, name, x.op, (" -- operand %s" % x.operand) if x.operand else ""))
+    return r
+
+
+def rule_meta_format(ctx, rid="R12.12"):
+    """"Unknown format names never cause failure" and any string is a format name: the bundled metaschemas must let every string
+    through as the value of `format` (check_schema runs before validation in jsonschema.validate and the CLI)."""
+    prog = ctx.prog
+    r = ctx.rule(rid, "each bundled metaschema admits every string (the empty one too) as a format name, and nothing else about format", floor=4)
+    for d in DRAFTS:
+        meta = prog.tables.drafts[d].meta
+        sub = (meta.get("properties") or {}).get("format")
+        where = "jsonschema/schemas/%s.json#/properties/format" % d
+        if sub == {"type": "string"}:
+            r.ok(where, '{"type": "string"}')
+        else:
+            r.fail("%s|meta-format|%s" % (d, json.dumps(sub, sort_keys=True)[:60]), where,
+                   "%s's metaschema describes `format` as %s: with anything beyond type=string some format names make check_schema (and so "
+                   "jsonschema.validate) reject the schema, whatever checker is in use" % (d, json.dumps(sub, sort_keys=True)[:80]))
     return r
